@@ -21,3 +21,6 @@ Definition c04_quote_pred (i : nat) (s out : str) : bool :=
 (** C05: both backends must return the specification's value (surrogate-free input) *)
 Definition c05_quote_pred (i : nat) (s out : str) : bool :=
   if no_sur_b s then str_eqb out (qspec (quoter_n i) s) else true.
+
+(** canonical text of the component a requoter writes (used to generate C04 inputs) *)
+Definition canon_n (i : nat) (s : str) : bool := canon (quoter_n i) s.
